@@ -134,6 +134,7 @@ def replay_behaviour(steps, seed=0):
                 w.kernel['A'].spd[('junk', 1)] = {'junk': 1, 'sel': {'saddr': '1.1.1.1', 'prefixlen_s': 32, 'daddr': '2.2.2.2', 'prefixlen_d': 32, 'sport': 0, 'dport': 0, 'proto': 0,
                                                                       'sport_mask': 0, 'dport_mask': 0}, 'dir': 1, 'attrs': [], 'index': 99 << 3 | 1, 'action': 0}
                 w.kernel['A'].sad[('9.9.9.9', 50, b'\x09\x09\x09\x09')] = {'junk': True, 'daddr': '9.9.9.9', 'spi': b'\x09\x09\x09\x09', 'attrs': []}
+                w.kernel['A'].sad[('9.9.9.8', 51, b'\x09\x09\x09\x08')] = {'junk': True, 'daddr': '9.9.9.8', 'spi': b'\x09\x09\x09\x08', 'attrs': []}      # (ESP and AH)
             # compare
             spec_entries = {p['entry'] for p in tgt['spd'] if p['entry'] < 90}
             spec_junk = any(p['entry'] >= 90 for p in tgt['spd'])
